@@ -27,6 +27,7 @@ ShapesOf(kind) ==
         \cup {[s |-> "list1", x |-> x] : x \in at} \cup {[s |-> "map1", x |-> x] : x \in at}
         \cup {[s |-> "list-of-list", x |-> x] : x \in at} \cup {[s |-> "map-in-list-in-map", x |-> x] : x \in at}
         \cup {[s |-> "pair", x |-> x, y |-> A(one)] : x \in at}
+        \cup {[s |-> "long", n |-> n] : n \in {101, 1001}}     \* n different members: the order must survive storage
 
 VARIABLES kind, val,     \* the case
           mem,           \* value held by the computing chain: <<>> or <<v>>
